@@ -1064,8 +1064,12 @@ impl<'a, 'b, W: Write> Serializer for &'a mut YamlSerializer<'b, W> {
             // Block scalars have no escapes; text they cannot carry unchanged must be quoted.
             let representable = crate::wrapping::is_block_scalar_safe(v);
 
-            // If N > 9, YAML parsers reject it. Fall back to quoting.
-            if !representable || (needs_indicator && (indent_n > 9 || !indicator_reliable)) {
+            // If N > 9, YAML parsers reject it. Fall back to quoting. A block scalar cannot
+            // stand inside a flow collection either (its header would be read as plain text).
+            if !representable
+                || self.in_flow > 0
+                || (needs_indicator && (indent_n > 9 || !indicator_reliable))
+            {
                 // Reset state and fall through to quoted string handling
                 self.pending_str_style = None;
                 self.pending_str_from_auto = false;
